@@ -345,6 +345,32 @@ CLAIMS = {
 PENDING_REASON = "check not built yet in this session (model and theorems planned in DESIGN.md §5); not claimed until its check exists"
 
 
+# further additions (proof libraries written by sub-agents in the third session)
+ADDENDA2 = {
+    "C02": " STORED COEFFICIENTS, COMPLEX SYMBOLS (Properties/C02_stored_complex.lean): on the linear test family the regenerated ETDRK-p steps "
+           "with the stored contour coefficients (M=16, r=1) converge with order p up to a floor 1.7e-12 for every symbol in the closed left "
+           "half-plane off the sixteen contour nodes, p=1..4, and for every purely imaginary symbol (advection, dispersion) without any node "
+           "hypothesis; the E3 case for real symbols surfaced.",
+    "C05": " The REGENERATED Laplace and gradient-inner-product operators at the regenerated derivative-operator column of a mode equal the "
+           "analytic symbols (-1)^n s^{2n} sum_d k_d^{2n} resp. i (-1)^n s^{2n+1} sum_d v_d k_d^{2n+1} (Properties/C05_generated.lean).",
+    "C09": " ASSEMBLED (Properties/C09_assembled.lean): the regenerated whole step of GeneralConvectionStepper (conservative, a0 = 0), Burgers, "
+           "KdV (every mixing flag, every D) and KS-conservative keeps the mean mode of every channel for every order, every contour, every n "
+           "- in Fourier space and as the grid sum of the physical state.",
+    "C10": " NYQUIST-FREE FIELDS ON EVERY GRID (Properties/C10_nyquist_free.lean, on the regenerated make_incompressible, 'ij' and 'xy', D >= 2, "
+           "any N): the projected spectrum is Hermitian-consistent at EVERY stored mode, the result is divergence-free at every stored mode "
+           "(k_last = 0 plane and Nyquist column included), idempotent as whole arrays, equals the model Leray projection at every mode, stays "
+           "Nyquist-free and real; every real divergence-free field is returned unchanged (whole arrays, D >= 1, no Nyquist hypothesis).",
+    "C16": " METRIC LAWS ON THE REGENERATED NAMED METRICS (Properties/C16_axioms.lean): MSE/RMSE/MAE and the n*/s* variants vanish on identical "
+           "inputs, the absolute and symmetric ones are symmetric, nMSE/nMAE provably are not, MSE scales with a^2 and RMSE/MAE with |a|, the "
+           "normalized and symmetric variants are scale-free, and all are positive-definite on the grid.",
+    "C18": " OUTPUT SPECTRA (Properties/C18_output_spectrum.lean): rfftn of the RETURNED array of the truncated series, the diffused noise and "
+           "the Gaussian random field equals the shaped spectrum handed to irfftn (whole arrays, all D, N, even grids included) - hence no "
+           "content outside the cutoff box, mean = requested offset, kernel / power-law shaping of the noise spectrum - also for the regenerated "
+           "generators with normalisation off.",
+    "C20": " A successful call returns exactly the configured shape (Properties/C20_shape.lean).",
+}
+
+
 def main():
     props = [json.loads(l) for l in open(os.path.join(VERIF, "properties.jsonl"))]
     checks = []
@@ -360,7 +386,7 @@ def main():
                 "evidence_file": f"evidence/{pid}.json",
                 "replay_cmd_template": "/venv/bin/python harness/replay.py {path}",
                 "engine": "lean-proof+correspondence",
-                "level_claimed": {"category": "proof", "text": c["text"] + ADDENDA.get(pid, ""), "design_ref": c["design_ref"]},
+                "level_claimed": {"category": "proof", "text": c["text"] + ADDENDA.get(pid, "") + ADDENDA2.get(pid, ""), "design_ref": c["design_ref"]},
                 "level_note": c.get("note", NOTE_COMMON),
                 "technique": c["technique"],
             })
